@@ -9,6 +9,7 @@ import CweModel.C13.Model
 import CweModel.C13.Eval
 import CweModel.C13.Cond
 import CweModel.C13.Join
+import CweModel.C13.Edge
 import CweModel.C12.Model
 open Lean CweModel.Proto CweModel.IR CweModel.Itv CweModel.MemRegion
 
@@ -410,7 +411,8 @@ def handleEv (j : Json) : Except String String := do
 def parseRegList (j : Json) : Except String (List (Variable × DData)) := do
   mapM' (fun r => do
     let a ← r.getArr?
-    let v : Variable := { name := ← a[0]!.getStr?, size := ← a[1]!.getNat? }
+    let isTemp := match a[3]? with | some (Json.bool b) => b | _ => false
+    let v : Variable := { name := ← a[0]!.getStr?, size := ← a[1]!.getNat?, isTemp := isTemp }
     return (v, ← parseDData a[2]!)) (← j.getArr?).toList
 
 def parseObjs (j : Json) : Except String Objs := do
@@ -455,6 +457,74 @@ def msVars : List Variable :=
 
 def showRegion (r : Region DData) : String :=
   "[" ++ ",".intercalate (r.map fun c => s!"{c.1}:{showDData c.2}") ++ "]"
+
+
+/-! ## post-fixpoint check of the model transfer on the real per-node dump -/
+
+def showAV : AV → String
+  | .top => "TOP"
+  | .st s => "state(regs=" ++ toString (s.st.regs.map fun p => p.1.name ++ "=" ++ showDData p.2) ++ " stack=" ++ showRegion s.stackRegion ++ ")"
+
+/-- the real analysis result as an assignment of node values, checked against the guarded model transfer `Edge.lean`:
+`none` = nothing to report, else a tag or a diff line -/
+def postfixCheck (j : Json) : Except String (Option String) := do
+  let implJ ← field j "impl"
+  if (implJ.getStr?).isOk then return none
+  let fullJ ← match implJ.getObjVal? "full" with
+    | .ok f => pure f
+    | .error _ => return none
+  if !(← boolF implJ "stab") then return none
+  let p ← parseProject (← field j "project")
+  let fnTid ← strF j "fn"
+  let some sub := p.program.subs.find? (·.tid.id == fnTid) | throw "function not found"
+  let blocks := sub.term.blocks
+  let sidI ← intF fullJ "sid"
+  let gidI ← intF fullJ "gid"
+  if sidI < 0 || gidI < 0 then return some "postfix-no-states"
+  let sid := sidI.toNat
+  let gid := gidI.toNat
+  let globals ← mapM' (fun g => g.getNat?) (← arrF fullJ "globals")
+  let nodesJ ← field fullJ "nodes"
+  let mut table : List (Nat × AV) := []
+  let mut notGood := false
+  for (b, i) in blocks.zipIdx do
+    match nodesJ.getObjVal? b.tid.id with
+    | .error _ => pure ()
+    | .ok nj =>
+      for (key, node) in [("S", 2 * i), ("E", 2 * i + 1)] do
+        let sj ← field nj key
+        if sj != Json.null then
+          let s ← parseImplState sj globals sid gid
+          let c := canon s
+          if !goodB c then notGood := true
+          table := (node, AV.st c) :: table
+  let S : Nat → Option AV := fun n => (table.find? (·.1 == n)).map (·.2)
+  if notGood then return some "postfix-state-outside-invariant"
+  if closedB blocks S then return some "postfix-checked"
+  if meetsTopB blocks S then
+    -- which kind of edge leaves the fragment first
+    let firstTop := (kEdges blocks).find? fun k =>
+      match S k.src with
+      | none => false
+      | some a => (match k.kind.f a with | some x => x == .top | none => false)
+    let kindS := match firstTop.map (·.kind) with
+      | some (.block _) => "block" | some .jump => "jump" | some (.cond _ _) => "cond" | none => "node"
+    return some s!"postfix-outside-fragment postfix-top-at-{kindS}"
+  -- a real fixpoint that is not closed under the model transfer: report the first open edge
+  let open? := (kEdges blocks).find? fun k =>
+    match S k.src with
+    | none => false
+    | some a =>
+      match k.kind.f a with
+      | none => false
+      | some x => match S k.dst with | none => true | some b => !(gJoinW x b == b)
+  match open? with
+  | some k =>
+    let a := (S k.src).getD .top
+    let x := ((k.kind.f a).getD .top)
+    let kindS := match k.kind with | .block _ => "block" | .jump => "jump" | .cond _ b => s!"cond-{b}"
+    return some s!"DIFF class=pi-postfix-open-edge:{kindS} model={(showAV (match S k.dst with | some b => gJoinW x b | none => x)).take 700} impl={(match S k.dst with | some b => showAV b | none => "none").take 700} edge={k.src}->{k.dst}"
+  | none => return some "postfix-checked"
 
 /-- first difference between the model state and the reported state -/
 def stateDiff (m impl : MSt) : Option String :=
@@ -819,7 +889,13 @@ def handleCs (j : Json) : Except String String := do
 def handleE (line : String) : Except String String := do
   let j ← Json.parse line
   match (← strF j "q") with
-  | "pi" => handlePi j
+  | "pi" =>
+    let v ← handlePi j
+    if v.startsWith "ok" then
+      match ← postfixCheck j with
+      | none => return v
+      | some t => if t.startsWith "DIFF " then return "diff " ++ t.drop 5 else return v ++ " " ++ t
+    else return v
   | "null" => handleNull j
   | "dd" => handleDd j
   | "ev" => handleEv j
